@@ -58,7 +58,14 @@ def gen_codec(rng, tier):
         if len(f0) > 1:
             lines.append('read ver=0 ' + hx(f0[:rng.randrange(0, len(f0))]))
     # a malformed stream
-    lines.append('read ver=%d %s' % (rng.randrange(2), hx(rand_bytes(rng, rng.randrange(0, 40)))))
+    mal = bytearray(rand_bytes(rng, rng.randrange(0, 40)))
+    ver = rng.randrange(2)
+    if ver == 1 and len(mal) >= 2:
+        # keep the first length prefix below 2^20: the real reader allocates whatever the prefix says
+        # (a 2 GB allocation per case is legal but takes seconds)
+        mal[0] = 0
+        mal[1] &= 0x0f
+    lines.append('read ver=%d %s' % (ver, hx(bytes(mal))))
     # kv
     for _ in range(2):
         k = rand_bytes(rng, rng.choice((0, 1, 2, 3, 8, 255, 256, 300)))
